@@ -41,3 +41,38 @@ prop("C04", "other",
 
 # properties not claimed (with the reason); kept current by hand
 NOT_APPLICABLE = {}
+
+from .rules import c07  # noqa: E402
+
+prop("C07", "other",
+     "Exhaustive decision tables extracted from MIR by abstract execution over finite cells: OpGet::to_python over "
+     "(PDU variant x varbind-count class 0/1/>=2 x 17 value variants), OpGetMany::to_python over (PDU variant x value "
+     "variant) with key/value provenance (dict[var.oid] = var.value of the same varbind), the SnmpError -> PyErr table "
+     "(18 variants) against the documented classes and the create_exception! base classes; Python AST: every blocking "
+     "socket call of the sync client maps BlockingIOError to TimeoutError. Every cell of the tables is decided; what is "
+     "not decided is the identity of the Python objects pyo3 builds from the decoded values (see C02).",
+     [("C07.get", c07.get_table), ("C07.many", c07.many_table), ("C07.exc", c07.exc_table), ("C07.py", py.blocking_wrapped)])
+
+from .rules import c06  # noqa: E402
+
+prop("C06", "other",
+     "CFG path rules and decision tables on MIR: in GetIter::set_next_oid the write of next_oid is reachable only across "
+     "the true edge of start_oid.starts_with(oid) and of a strict-order test oid > next_oid (operands pinned by "
+     "provenance; starts_with = argument.starts_with(receiver)); next_oid has no other writer; all 12 GETNEXT/GETBULK "
+     "pymethods build the request from iter.get_next_oid(); the GetNext and GetBulk step tables (reply size x in/out of "
+     "subtree x 17 value kinds) are extracted by abstract execution and compared with the property; a result tuple is "
+     "built only past the accepting edge of set_next_oid for the same varbind; after the out-of-subtree marker the reply "
+     "loop is not re-entered; Python: StopAsyncIteration -> StopIteration, None sentinel, empty list. Decides every "
+     "clause but one: that cmp_arcs implements numeric OID order is only checked structurally (per sub-identifier).",
+     [("C06.contain", c06.contain), ("C06.mono", c06.mono), ("C06.cont", c06.cont), ("C06.stop", c06.stop_tables),
+      ("C06.py", py.stop_mapping), ("C06.pybuf", py.bulk_buffer)])
+
+prop("C05", "other",
+     "Client-side premises of the walk argument (given an RFC 3416 agent): containment and continuation rules of C06, "
+     "the GetNext/GetBulk step tables agreeing cell by cell on (value kind x in/out of subtree), delivery in reply order "
+     "(forward iteration and append in Rust; front pop, None sentinel, refill only when empty in Python, sync and async), "
+     "async send_X/recv_X pairing with the same iterator context, fetch() choosing getbulk iff bulk is allowed and never "
+     "on v1. Necessary conditions only: that the walk returns exactly the MIB entries below the base, each once, is a "
+     "relation between agent and client histories and is NOT decided statically.",
+     [("C05.contain", c06.contain), ("C05.mono", c06.mono), ("C05.cont", c06.cont), ("C05.step", c06.stop_tables),
+      ("C05.pybuf", py.bulk_buffer), ("C05.pystop", py.stop_mapping), ("C05.async", py.async_pairs), ("C05.fetch", py.fetch)])
